@@ -290,8 +290,12 @@ def rule_d(ctx):
     ctx.ob(R, f.qname, "dates: self first, then image", f"self.date = self.date + {other}.date" in texts and f"self.date.append({other}.date)" in texts
            or any(t.startswith("self.date = ") and t.index("self.date", 11) < t.index(f"{other}.date") for t in texts if f"{other}.date" in t and t.count("self.date") > 1),
            str([t for t in texts if "date" in t][:6]), f.node)
-    tt = [t for t in texts if t.startswith("time = time + ") or t.startswith("time.append(")]
-    ctx.ob(R, f.qname, "relative times: self's times first, image's (plus offset) appended", len(tt) == 2 and all(other + ".time" in t for t in tt), str(tt), f.node)
+    am = AM(f)
+    off = f.params[2] if len(f.params) > 2 else "offset"
+    t_ok = am.has(f.node, "time = self.time if isinstance(self.time, list) else [self.time]") is not None \
+        and am.has(f.node, f"if isinstance({other}.time, list):\n    time = time + [t + {off} for t in {other}.time]\nelse:\n    time = time + [{other}.time + {off}]") is not None \
+        and am.has(f.node, "self.set_time(time)") is not None
+    ctx.ob(R, f.qname, "relative times: self's times first, image's (plus offset) appended, and that list is what is stored", t_ok, str(am.show()), f.node)
     ctx.ob(R, f.qname, "time_num grows by image.time_num", f"self.time_num += {other}.time_num" in texts, "", f.node)
     ctx.ob(R, f.qname, "the result is a series", "self.series = True" in texts, "", f.node)
     # the inner slicing helper lists time slices in increasing order
